@@ -717,7 +717,7 @@ func wrapperArmsCompleteRule(c *Ctx, r *Report, p *Prov, ph *placeholders, rule 
 		}
 		// the innermost key-context test on the dominator path of the call
 		var entry *ssa.BasicBlock
-		for _, f := range factsAt(call.Block()) {
+		for _, f := range allFacts(call.Block()) {
 			a := p.atomOf(f.Cond, f.Pol)
 			if a.Kind == "strconst" && a.Pol && f.If != nil {
 				b := f.If.Block()
